@@ -12,7 +12,7 @@ import (
 
 var scenarios = map[string]func(*ctx){
 	"C01": scenC01, "C02": scenC02, "C03": scenC03, "C04": scenC04, "C07": scenC07, "C13": scenC13,
-	"C08": scenC08, "C10": scenC10, "C12": scenC12, "C16": scenC16, "C17": scenC17,
+	"C11": scenC11, "C08": scenC08, "C10": scenC10, "C12": scenC12, "C16": scenC16, "C17": scenC17,
 	"C05": scenC05, "C06": scenC06, "C14": scenC14, "C15": scenC15,
 }
 
